@@ -7,7 +7,6 @@ use crate::model::{
 
 use std::path::PathBuf;
 use proc_macro_error::{abort,abort_call_site};
-use quote::format_ident;
 use syn::{ Ident,File,ItemImpl,punctuated::Punctuated,Meta,Token};
 
 
@@ -77,7 +76,7 @@ impl ActorAttributeArguments {
             else if meta.path().is_ident("first_name")  && self.mac == Mac::Family {
                     let str_name = get_lit_str(&meta,"first_name"); 
                 if &str_name == "" { abort!(&ident,"Attribute argument 'first_name' value is empty. Enter a name.")} 
-                    self.first_name = Some(format_ident!("{str_name}"));  
+                    self.first_name = Some(super::str_to_ident(&meta,"first_name",&str_name));  
             } 
         
             // INTERACT
@@ -220,7 +219,7 @@ impl ActorAttributeArguments {
         if meta.path().is_ident("name"){
             let str_name = get_lit_str(&meta,"name"); 
             if &str_name == "" { abort!(&ident,"Attribute argument 'name' value is empty. Enter a name.") }
-            self.name = Some(format_ident!("{str_name}")); 
+            self.name = Some(super::str_to_ident(&meta,"name",&str_name)); 
             true
         }
 
